@@ -47,10 +47,33 @@ def gen_resume(rng, tier):
     return cfg, hist
 
 
+def gen_sched_eval(rng, tier):
+    """stratum: the scheduler changes factor_update_steps right after an EVAL-mode pass that follows a step (train / validate /
+    scheduler order), at a step count that is a multiple of only one of the old and the new interval"""
+    from harness import kfacgen
+    model, in_shape = rng.choice(kfacgen.MODELS[:5])
+    acc = rng.choice([1, 2])
+    old, fac = rng.choice([(3, 2), (4, 0.5), (2, 1.5), (2, 2)])
+    cfg = {
+        'model': model, 'in_shape': in_shape, 'batch': rng.choice([3, 4]), 'model_seed': rng.randrange(100), 'data_seed': rng.randrange(10 ** 6),
+        'compute_method': rng.choice(['eigen', 'inverse']), 'compute_eigenvalue_outer_product': False, 'colocate_factors': True,
+        'update_factors_in_hook': rng.random() < 0.6, 'accumulation_steps': acc,
+        'kl_clip': None, 'lr': 1.0, 'factor_decay': 0.5, 'damping': 0.5,
+        'factor_update_steps': old, 'inv_update_steps': 1,
+    }
+    it = [['pass', 1] for _ in range(acc)] + [['step']]
+    n0 = old if fac >= 1 else old // 2          # the step count at which the interval changes: a multiple of the old OR of the new one only
+    cfg['sched'] = {'factor_update_steps': ['table', [1] * n0 + [fac] + [1] * 39]}      # the factor is looked up at the current step count
+    hist = it * n0 + [['pass', 0], ['sched']] + it * (2 * old + 1)
+    return cfg, hist
+
+
 def gen(rng, tier, k=None):
     from harness import kfacgen
     if k is not None and k % 5 == 0:
         return gen_resume(rng, tier)
+    if k is not None and k % 5 == 2:
+        return gen_sched_eval(rng, tier)
     model, in_shape = rng.choice(kfacgen.MODELS[:5])
     method = rng.choice(['eigen', 'eigen', 'inverse'])
     prediv = rng.random() < 0.5
